@@ -1041,9 +1041,13 @@ func (s *storage) RemoveBlobs(ctx context.Context, blobs []blob.Ref) error {
 	if err := grp.Err(); err != nil {
 		return err
 	}
-	if len(unpacked) > 0 {
+	// A packed blob may still have a loose copy in small as well (a pack
+	// interrupted between its meta commit and the removal of the loose
+	// blobs, a failed removal, or a zip recovered into the meta): remove
+	// it too, or the blob would still be served from small.
+	if loose := append(append([]blob.Ref(nil), unpacked...), packed...); len(loose) > 0 {
 		grp.Go(func() error {
-			return s.small.RemoveBlobs(ctx, unpacked)
+			return s.small.RemoveBlobs(ctx, loose)
 		})
 	}
 	if len(packed) > 0 {
